@@ -12,7 +12,8 @@
 (* Payouts in the model are the ideal ones floor(alloc*e/total); the real ones are taken from the log.  *)
 EXTENDS GaugeInt, TLC, Json
 CONSTANTS NU, MaxFarm, MaxGauges, Templates, Steps, D, FarmPools, Amts, Modes, Emit,
-          WithSwap, FeeAmts, FeeBudget, FeeDenoms, GovBudget
+          WithSwap, FeeAmts, FeeBudget, FeeDenoms, GovBudget,
+          NP, ChildPricePools, SetupFirst, PreFarm
 
 VARIABLE s
 Big == 1000000
@@ -25,6 +26,12 @@ T6 == [dep |-> 4, tot |-> 2, pool |-> 1, master |-> FALSE, childs |-> <<1>>, del
 T7 == [dep |-> 5, tot |-> 2, pool |-> 1, master |-> FALSE, childs |-> <<>>, delay |-> 0, den |-> 102] \* paid in fee denom B
 TplSingle == {T1, T5}
 TplFee == {T7}
+(* master pool 1 with three child pools: explicit list, list in another order, default = all other pools of the app *)
+T8 == [dep |-> 6, tot |-> 2, pool |-> 1, master |-> TRUE, childs |-> <<2, 3, 4>>, delay |-> 0, den |-> 0]
+T9 == [dep |-> 6, tot |-> 2, pool |-> 1, master |-> TRUE, childs |-> <<4, 3, 2>>, delay |-> 0, den |-> 0]
+T10 == [dep |-> 6, tot |-> 2, pool |-> 1, master |-> TRUE, childs |-> <<>>, delay |-> 0, den |-> 0]
+TplChildren == {T8, T9, T10}
+TplChildren1 == {T8}
 TplMaster == {T2, T6}
 TplTwo == {T1, T2}
 TplMasterAll == {T2, T3, T4, T6}
@@ -40,14 +47,17 @@ Pool1(mode, coll) == [exists |-> TRUE, disabled |-> FALSE, dis |-> FALSE,
                 qW |-> 1, qD |-> 1, bW |-> 2, bD |-> 1, mode |-> mode, coll |-> coll]
 Pool2 == [exists |-> TRUE, disabled |-> FALSE, dis |-> FALSE, qOn |-> TRUE, bOn |-> TRUE, qAct |-> TRUE, bAct |-> TRUE,
           qW |-> 3, qD |-> 1, bW |-> 1, bD |-> 1, mode |-> "q", coll |-> NoColl]
+(* further pools (3, 4, ...): child candidates with their own assets; "off" = neither asset of the pair has an oracle price *)
+PoolC(p, mode) == [exists |-> TRUE, disabled |-> FALSE, dis |-> FALSE, qOn |-> mode = "q", bOn |-> mode = "q", qAct |-> mode = "q", bAct |-> mode = "q",
+                   qW |-> p - 1, qD |-> 1, bW |-> 1, bD |-> 1, mode |-> mode, coll |-> NoColl]
 Pos(n) == [pc |-> n, xq |-> n, xb |-> n]
 SwapGauge(p) == [id |-> p, kind |-> "swap", denom |-> FeeA, ddenom |-> FeeA, dep |-> 0, dist |-> 0, trig |-> 0, tot |-> 1,
                  active |-> TRUE, start |-> 0, dur |-> 2 * D, pool |-> p, master |-> FALSE, childs |-> <<>>]
 
 Init == s = [gauges |-> IF WithSwap THEN <<SwapGauge(1), SwapGauge(2)>> ELSE <<>>,
              epochs |-> IF WithSwap THEN <<NewEpoch(2 * D, 0)>> ELSE <<>>,
-             pools |-> <<Pool1("q", NoColl), Pool2>>,
-             users |-> [u \in 1..NU |-> [pos |-> <<Pos(0), Pos(0)>>]],
+             pools |-> [p \in 1..NP |-> IF p = 1 THEN Pool1("q", NoColl) ELSE IF p = 2 THEN Pool2 ELSE PoolC(p, "q")],
+             users |-> [u \in 1..NU |-> [pos |-> [p \in 1..NP |-> IF p \in PreFarm THEN Pos(1) ELSE Pos(0)]]],   \* PreFarm: positions held from the start
              cust |-> [d \in AllDenoms |-> 0], distr |-> FeeA, fees |-> FeeBudget, govs |-> GovBudget]
 
 Out(a, args, post) ==
@@ -59,6 +69,9 @@ Live == \/ NReg < MaxGauges \/ \E i \in 1..Len(s.gauges) : IsReg(i) /\ s.gauges[
         \/ (WithSwap /\ s.fees > 0)
         \/ (WithSwap /\ \E i \in 1..Len(s.gauges) : (~IsReg(i) /\ s.gauges[i].dep > 0))
         \/ (WithSwap /\ \E d \in {FeeA, FeeB} : s.pools[1].coll[d] > 0)
+
+(* SetupFirst: positions and prices are arranged before the first gauge is created (every configuration, one lifecycle each) *)
+InSetup == ~SetupFirst \/ NReg = 0
 
 (* ---- MsgCreateGauge ---- *)
 DoCreate(t) ==
@@ -80,15 +93,21 @@ DoCreate(t) ==
 DoFarm(u, p, amt) ==
   LET n == s.users[u].pos[p].pc + amt
       s2 == [s EXCEPT !.users[u].pos[p] = Pos(n)]
-  IN /\ n <= MaxFarm /\ s' = s2 /\ Out("Farm", [u |-> u, p |-> p, amt |-> amt], s2)
+  IN /\ InSetup /\ n <= MaxFarm /\ s' = s2 /\ Out("Farm", [u |-> u, p |-> p, amt |-> amt], s2)
 DoUnfarm(u, p, amt) ==
   LET n == s.users[u].pos[p].pc - amt
       s2 == [s EXCEPT !.users[u].pos[p] = Pos(n)]
-  IN /\ n >= 0 /\ s' = s2 /\ Out("Unfarm", [u |-> u, p |-> p, amt |-> amt], s2)
+  IN /\ InSetup /\ n >= 0 /\ s' = s2 /\ Out("Unfarm", [u |-> u, p |-> p, amt |-> amt], s2)
 
 DoPrice(mode) ==
   LET s2 == [s EXCEPT !.pools[1] = Pool1(mode, s.pools[1].coll)]
-  IN /\ s.pools[1].mode # mode /\ s' = s2 /\ Out("Price", [p |-> 1, mode |-> mode], s2)
+  IN /\ InSetup /\ s.pools[1].mode # mode /\ s' = s2 /\ Out("Price", [p |-> 1, mode |-> mode], s2)
+(* a child pool's pair loses / regains its oracle prices (pool 2: same shape as PoolC with its own weights) *)
+ChildPool(p, mode) == IF p = 2 THEN [Pool2 EXCEPT !.qOn = mode = "q", !.bOn = mode = "q", !.qAct = mode = "q", !.bAct = mode = "q", !.mode = mode]
+                      ELSE PoolC(p, mode)
+DoPriceChild(p, mode) ==
+  LET s2 == [s EXCEPT !.pools[p] = ChildPool(p, mode)]
+  IN /\ InSetup /\ s.pools[p].mode # mode /\ s' = s2 /\ Out("Price", [p |-> p, mode |-> mode], s2)
 
 (* ---- swap fees arrive at pool 1's collector; governance changes the distribution denom ---- *)
 DoFees(amt) ==
@@ -149,6 +168,7 @@ Next == /\ Live
         /\ \/ \E t \in Templates : DoCreate(t)
            \/ \E u \in 1..NU, p \in FarmPools, amt \in Amts : DoFarm(u, p, amt) \/ DoUnfarm(u, p, amt)
            \/ \E m \in Modes : DoPrice(m)
+           \/ \E p \in ChildPricePools, m \in {"q", "off"} : DoPriceChild(p, m)
            \/ \E k \in Steps : DoAdvance(k)
            \/ \E amt \in FeeAmts : DoFees(amt)
            \/ \E d \in FeeDenoms : DoSetDenom(d)
